@@ -149,6 +149,69 @@ def gen_cross_ins_edit(rng, doc, texts):
     return []
 
 
+def gen_marked_edit(rng, doc, texts, avoid_pi=()):
+    """one edit whose target is quoted from the reader's text *with* the bold / italic markers of a formatted run
+    (optionally with the plain word in front of it), extended behind the closing marker or prefixed before the
+    opening one; -> list with 0 or 1 edit. `new_real` is the expected text without markers."""
+    pvs = [ParaView(si, pi, p) for pi, (si, p) in enumerate(sem.all_paragraphs(doc))]
+    rng.shuffle(pvs)
+    word = WordSource(rng)
+    for pv in pvs:
+        if pv.pi in avoid_pi:
+            continue
+        acc = pv.acc
+        runs = {}
+        for i, c in enumerate(acc):
+            runs.setdefault(c["run"], []).append(i)
+        cands = []
+        for rno, idxs in runs.items():
+            seg = [acc[i] for i in idxs]
+            if not seg[0]["marked"] or any(c["state"] != "plain" or c["c"] == "\n" or c["comments"] for c in seg):
+                continue
+            if idxs != list(range(idxs[0], idxs[-1] + 1)):
+                continue
+            # the whole run must be visible (no part of it deleted / hidden)
+            if sum(1 for c in pv.chars if c["run"] == rno) != len(seg):
+                continue
+            txt = "".join(c["c"] for c in seg)
+            if not txt.strip() or txt != txt.strip():
+                continue
+            cands.append((idxs[0], idxs[-1] + 1, seg[0]["fmt"], txt))
+        rng.shuffle(cands)
+        for a, b, f, txt in cands:
+            bold, ital = sem.onoff_true(f[0]), sem.onoff_true(f[1])
+            pre = ("**" if bold else "") + ("_" if ital else "")
+            suf = ("_" if ital else "") + ("**" if bold else "")
+            lead = ""
+            a0 = a
+            if rng.random() < 0.6:
+                # the plain word in front of the formatted run
+                while a0 > 0 and a - a0 < 12 and acc[a0 - 1]["state"] == "plain" and not acc[a0 - 1]["marked"] \
+                        and not acc[a0 - 1]["comments"] and acc[a0 - 1]["c"] != "\n" and acc[a0 - 1]["run"] == acc[a - 1]["run"]:
+                    a0 -= 1
+                lead = "".join(c["c"] for c in acc[a0:a])
+                if lead != lead.lstrip():
+                    k = len(lead) - len(lead.lstrip())
+                    a0 += k
+                    lead = lead[k:]
+            target = lead + pre + txt + suf
+            real = lead + txt
+            if count_occ(texts["clean"], target) != 1 or count_occ(texts["raw"], target) != 1:
+                continue
+            if count_occ(fuzzy_norm(texts["clean"]), fuzzy_norm(target)) != 1:
+                continue
+            w = word()
+            if rng.random() < 0.7:
+                kind, new, new_real = "extend", target + " " + w, real + " " + w
+            else:
+                kind, new, new_real = "prefix", w + " " + target, w + " " + real
+            return [{"si": pv.si, "pi": pv.pi, "a": a0, "b": b, "target": target, "new": new, "new_real": new_real, "kind": kind,
+                     "comment": None, "locatable": True, "in_raw": True, "over_del": False, "state": "plain", "rid": None,
+                     "at_para_start": a0 == 0, "at_para_end": b == len(acc), "crosses_runs": bool(lead), "after_tab_in_run": False,
+                     "has_tab": False, "quoted_markers": True}]
+    return []
+
+
 NEW_WORDS = ["REPLACED", "amended text", "Forty-Two", "x", "new wording here", "Ünïcode", "a b c"]
 
 
@@ -246,7 +309,8 @@ def expected_accepted(doc, edits):
         pv = ParaView(si, pi, p)
         txt = pv.accepted_text()
         for e in sorted(by_para.get(pi, []), key=lambda e: -e["a"]):
-            txt = txt[:e["a"]] + e["new"] + txt[e["b"]:]
+            # (a target quoted with its bold / italic markers: the markers are no characters of the document)
+            txt = txt[:e["a"]] + e.get("new_real", e["new"]) + txt[e["b"]:]
         out.append(txt)
     return out
 
